@@ -1,7 +1,10 @@
 package eng
 
 import (
+	"fmt"
+	"os"
 	"sort"
+	"strings"
 
 	. "govc/term"
 )
@@ -23,6 +26,12 @@ func (e *Engine) prepareGoal(hyp, goal *Term) []*Term {
 // hypothesis by its instances only (a weakening of the hypotheses: "unsat"
 // is still a proof, "sat" only yields a candidate counterexample).
 func (e *Engine) prepareGoalMode(hyp, goal *Term, dropQ bool) []*Term {
+	return e.prepareGoalMode2(hyp, goal, dropQ, false)
+}
+
+// strict: nested quantifiers are instantiated only with skolem constants of a
+// variable of the same name (much smaller queries; tried first).
+func (e *Engine) prepareGoalMode2(hyp, goal *Term, dropQ bool, strict bool) []*Term {
 	c := e.C
 	var sks []*Term
 	var skolemize func(g *Term) *Term
@@ -78,14 +87,19 @@ func (e *Engine) prepareGoalMode(hyp, goal *Term, dropQ bool) []*Term {
 		for _, t := range insts {
 			seen[t] = true
 		}
-		var cands []*Term
-		add := func(t *Term) {
+		var cands, cands2 []*Term
+		addTo := func(t *Term, primary bool) {
 			if t == nil || t.Sort != Int || t.IsConst() || seen[t] || t.HasBound() {
 				return
 			}
 			seen[t] = true
-			cands = append(cands, t)
+			if primary {
+				cands = append(cands, t)
+			} else {
+				cands2 = append(cands2, t)
+			}
 		}
+		add := func(t *Term) { addTo(t, false) }
 		vis := map[*Term]bool{}
 		var walk func(t *Term)
 		walk = func(t *Term) {
@@ -96,7 +110,7 @@ func (e *Engine) prepareGoalMode(hyp, goal *Term, dropQ bool) []*Term {
 			switch t.Op {
 			case "select":
 				idx := t.Args[1]
-				add(idx)
+				addTo(idx, true) // what the goal reads arrays at: most relevant
 				if idx.Op == "+" || idx.Op == "-" {
 					for _, a := range idx.Args {
 						add(a)
@@ -116,19 +130,64 @@ func (e *Engine) prepareGoalMode(hyp, goal *Term, dropQ bool) []*Term {
 			add(h)
 		}
 		sort.SliceStable(cands, func(i, j int) bool { return Size(cands[i]) < Size(cands[j]) })
-		if len(cands) > 6 {
-			cands = cands[:6]
+		sort.SliceStable(cands2, func(i, j int) bool { return Size(cands2[i]) < Size(cands2[j]) })
+		if len(cands) > 8 {
+			cands = cands[:8]
+		}
+		if len(cands2) > 5 {
+			cands2 = cands2[:5]
 		}
 		insts = append(insts, cands...)
+		insts = append(insts, cands2...)
 	}
 	base := len(sks) * 3
-	budget := 400 // instances in total
+	if os.Getenv("GOVC_DEBUGINST") != "" {
+		fmt.Printf("-- insts for goal with %d skolems:\n", len(sks))
+		for _, t := range insts {
+			s := t.String()
+			if len(s) > 200 {
+				s = s[:200]
+			}
+			fmt.Printf("   %s\n", s)
+		}
+	}
+	budget := 3000 // instances in total
+	// reduced set for two-variable quantifiers: skolems, hints, a few candidates
+	var insts2 []*Term
+	{
+		seen := map[*Term]bool{}
+		add2 := func(t *Term) {
+			if !seen[t] && len(insts2) < 8 {
+				seen[t] = true
+				insts2 = append(insts2, t)
+			}
+		}
+		for _, k := range sks {
+			add2(k)
+		}
+		for _, h := range e.instHints {
+			if h.Sort == Int && !h.IsConst() {
+				add2(h)
+			}
+		}
+		if len(sks) == 0 {
+			for _, t := range insts[base:] {
+				add2(t)
+			}
+		}
+	}
 	type key struct {
 		t   *Term
 		pos bool
 	}
 	memo := map[key]*Term{}
 	depth := 0
+	goalKeys := heapKeysOf(g2)
+	skset := map[*Term]bool{}
+	for _, k := range sks {
+		skset[k] = true
+	}
+	goalIdxKeys := indexedKeys(g2, skset)
 	var inst func(t *Term, pos bool) *Term
 	inst = func(t *Term, pos bool) *Term {
 		if t.Sort != Bool || len(t.Args) == 0 {
@@ -158,16 +217,71 @@ func (e *Engine) prepareGoalMode(hyp, goal *Term, dropQ bool) []*Term {
 			r = c.Implies(inst(t.Args[0], !pos), inst(t.Args[1], pos))
 		case "ite":
 			r = c.Ite(t.Args[0], inst(t.Args[1], pos), inst(t.Args[2], pos))
+		case "=":
+			// b == (forall ...): split into the two implications so that the
+			// quantified side is reached in a definite polarity
+			if t.Args[0].Sort == Bool && (t.Args[0].Op == "forall" || t.Args[1].Op == "forall") {
+				a, b := t.Args[0], t.Args[1]
+				r = c.And(inst(c.Implies(a, b), pos), inst(c.Implies(b, a), pos))
+			}
 		case "forall":
+			if pos && depth == 0 && len(goalIdxKeys) > 0 && len(t.Bound) > 0 && os.Getenv("GOVC_IDXREL") != "" {
+				// which heaps does the bound variable index into? if none of them is
+				// indexed by a skolem constant of the goal, instances cannot matter
+				bset := map[*Term]bool{}
+				for _, b := range t.Bound {
+					bset[b] = true
+				}
+				hk := indexedKeys(t.Args[0], bset)
+				if len(hk) > 0 {
+					rel := false
+					for k := range hk {
+						if goalIdxKeys[k] {
+							rel = true
+						}
+					}
+					if !rel {
+						if dropQ {
+							r = c.True()
+						}
+						break
+					}
+				}
+			}
+			if pos && depth == 0 && len(goalKeys) > 0 {
+				bk := heapKeysOf(t)
+				if len(bk) > 0 {
+					rel := false
+					for k := range bk {
+						if goalKeys[k] {
+							rel = true
+						}
+					}
+					if !rel {
+						// talks about other parts of the heap than the goal does
+						if dropQ {
+							r = c.True()
+						}
+						break
+					}
+				}
+			}
 			if pos && len(t.Bound) == 1 && t.Bound[0].Sort == Int {
 				parts := []*Term{t}
 				if dropQ {
 					parts = nil
 				}
 				use := insts
-				if depth > 0 && base < len(insts) {
-					// nested quantifiers: skolem-derived terms first, then the rest while the budget lasts
-					use = insts
+				if depth > 0 && strict {
+					// nested quantifier: only skolem constants that stand for a variable
+					// of the same name (e.g. the byte index k of a digest)
+					use = nil
+					bn := varBase(t.Bound[0].Name)
+					for i, k := range sks {
+						if varBase(strings.TrimPrefix(k.Name, "sk.")) == bn {
+							use = append(use, insts[3*i:3*i+3]...)
+						}
+					}
 				}
 				for _, it := range use {
 					if budget <= 0 {
@@ -188,10 +302,17 @@ func (e *Engine) prepareGoalMode(hyp, goal *Term, dropQ bool) []*Term {
 				if dropQ {
 					parts = nil
 				}
-				for _, a := range insts {
-					for _, b := range insts {
+				isSk := map[*Term]bool{}
+				for _, k := range sks {
+					isSk[k] = true
+				}
+				for _, a := range insts2 {
+					for _, b := range insts2 {
 						if budget <= 0 {
 							break
+						}
+						if len(sks) > 0 && !isSk[a] && !isSk[b] {
+							continue // at least one skolem constant per instance
 						}
 						budget--
 						parts = append(parts, c.Subst(t.Args[0], map[*Term]*Term{t.Bound[0]: a, t.Bound[1]: b}))
@@ -211,4 +332,99 @@ func (e *Engine) prepareGoalMode(hyp, goal *Term, dropQ bool) []*Term {
 	}
 	h2 := inst(hyp, true)
 	return []*Term{c.And(h2, c.Not(g2))}
+}
+
+// varBase strips the uniquifying suffixes from a bound-variable name ("k?14!2" -> "k").
+func varBase(n string) string {
+	for i := 0; i < len(n); i++ {
+		if n[i] == '?' || n[i] == '!' {
+			return n[:i]
+		}
+	}
+	return n
+}
+
+// heapKeysOf collects the heap keys a formula talks about, read off the names
+// of the heap constants it mentions ("H0:<key>" and "...{<key>}...").
+func heapKeysOf(t *Term) map[string]bool {
+	out := map[string]bool{}
+	seen := map[*Term]bool{}
+	var walk func(u *Term)
+	walk = func(u *Term) {
+		if seen[u] {
+			return
+		}
+		seen[u] = true
+		if u.Op == "const" && u.Sort.Kind == KArray {
+			n := u.Name
+			if len(n) > 3 && n[:3] == "H0:" {
+				out[baseKey(n[3:])] = true
+			} else if i := indexByte(n, '{'); i >= 0 {
+				if j := indexByte(n[i:], '}'); j > 0 {
+					out[baseKey(n[i+1:i+j])] = true
+				}
+			}
+		}
+		for _, a := range u.Args {
+			walk(a)
+		}
+	}
+	walk(t)
+	return out
+}
+
+func baseKey(k string) string { return k }
+
+func indexByte(s string, b byte) int {
+	for i := 0; i < len(s); i++ {
+		if s[i] == b {
+			return i
+		}
+	}
+	return -1
+}
+
+// indexedKeys: the heap keys of the arrays that are read at an index mentioning
+// one of vars.
+func indexedKeys(t *Term, vars map[*Term]bool) map[string]bool {
+	out := map[string]bool{}
+	if len(vars) == 0 {
+		return out
+	}
+	ment := map[*Term]bool{}
+	var mentions func(u *Term) bool
+	mentions = func(u *Term) bool {
+		if v, ok := ment[u]; ok {
+			return v
+		}
+		r := vars[u]
+		if !r {
+			for _, a := range u.Args {
+				if mentions(a) {
+					r = true
+					break
+				}
+			}
+		}
+		ment[u] = r
+		return r
+	}
+	seen := map[*Term]bool{}
+	var walk func(u *Term)
+	walk = func(u *Term) {
+		if seen[u] {
+			return
+		}
+		seen[u] = true
+		if u.Op == "select" && mentions(u.Args[1]) {
+			for k := range heapKeysOf(u.Args[0]) {
+				out[k] = true
+			}
+		}
+		for _, a := range u.Args {
+			walk(a)
+		}
+	}
+	walk(t)
+	return out
 }
